@@ -281,13 +281,27 @@ namespace
 
     //=== bucket selection through free_list_array ===//
     template <class List, class Policy>
-    bool check_array(const char* name, std::size_t max_node, bool is_log)
+    bool check_array(const char* name0, std::size_t max_node, bool is_log, int moved = 0)
     {
-        std::size_t bytes = (max_node + 70) * sizeof(List) + 4096;
+        std::size_t bytes = (4 * max_node + 210) * sizeof(List) + 4096;
         std::unique_ptr<char[]> mem(new char[bytes]);
         d::fixed_memory_stack   stack(mem.get());
-        d::free_list_array<List, Policy> arr(stack, mem.get() + bytes, max_node);
+        using array_t = d::free_list_array<List, Policy>;
+        array_t arr0(stack, mem.get() + bytes, max_node);
+        // moved != 0: the array under test was move-assigned onto one built for another maximum (more /
+        // fewer buckets) and then move-constructed: it must answer like the original
+        array_t other(stack, mem.get() + bytes, moved == 1 ? 2 * max_node : (moved == 2 ? (max_node / 2 + 1 < 16 ? std::size_t(16) : max_node / 2 + 1) : max_node));
+        if (moved)
+            other = std::move(arr0);
+        array_t     arr(std::move(moved ? other : arr0));
+        std::string name_s = std::string(name0) + (moved == 1 ? ".moved-onto-larger" : moved == 2 ? ".moved-onto-smaller" : "");
+        const char* name   = name_s.c_str();
         bool ok = true;
+        if (moved && !is_log && arr.max_node_size() != max_node)
+        {
+            report((name_s + ".max_node_size").c_str(), max_node, 0, max_node, arr.max_node_size());
+            ok = false;
+        }
         if (arr.max_node_size() < max_node)
         {
             report((std::string(name) + ".max_node_size").c_str(), max_node, 0, max_node,
@@ -329,6 +343,13 @@ namespace
     bool check_all_arrays(std::size_t max_node)
     {
         bool ok = true;
+        for (int moved : {1, 2})
+        {
+            ok &= check_array<d::free_memory_list, d::identity_access_policy>("array.unordered.id", max_node, false, moved);
+            ok &= check_array<d::small_free_memory_list, d::identity_access_policy>("array.small.id", max_node, false, moved);
+            ok &= check_array<d::ordered_free_memory_list, d::log2_access_policy>("array.ordered.log2", max_node, true, moved);
+            ok &= check_array<d::small_free_memory_list, d::log2_access_policy>("array.small.log2", max_node, true, moved);
+        }
         ok &= check_array<d::free_memory_list, d::identity_access_policy>("array.unordered.id", max_node, false);
         ok &= check_array<d::ordered_free_memory_list, d::identity_access_policy>("array.ordered.id", max_node, false);
         ok &= check_array<d::small_free_memory_list, d::identity_access_policy>("array.small.id", max_node, false);
